@@ -61,7 +61,7 @@ package query
 //@   loop 1 invariant c.view != nil && c.view == old(c.view) && 0 <= c.index && c.index < len(c.view.RecordSet)
 //@   loop 1 invariant forall(k, 0, $i, list[k] == c.view.RecordSet[c.index][k][0])
 //@   loop 1 modifies list[*]
-//@   modifies c.index, c.fetched
+//@   modifies c.index, c.fetched, mutexHeld
 
 //@ func (*Cursor).Close
 //@   property C16
@@ -69,7 +69,7 @@ package query
 //@   requires c != nil && c.mtx != nil
 //@   ensures [pseudo-error] c.isPseudo ==> result != nil && c.view == old(c.view) && c.index == old(c.index)
 //@   ensures [closed] !c.isPseudo ==> result == nil && c.view == nil && !c.fetched
-//@   modifies c.view, c.index, c.fetched
+//@   modifies c.view, c.index, c.fetched, mutexHeld
 
 //@ func (*Cursor).IsOpen
 //@   property C16
